@@ -293,6 +293,16 @@ FamAbstract ==
   \cup { Plain("abstract", <<FS("", top, <<Inl("A", <<FS("", "peer", <<Inl(c, s), TN>>)>>), Inl("B", <<FS("", "peer", <<Inl("Named", <<F("", "name")>>)>>)>>)>>)>>) :
            top \in {"named", "any"}, <<c, s>> \in {<<"Named", <<F("", "name")>>>>, <<"B", <<F("", "flag")>>>>, <<"A", <<F("", "n")>>>>} }
 
+\* one fragment on the interface, spread under different concrete types by different operations of ONE document: the
+\* interface's field is implemented covariantly (A.peer : B, B.peer : A), so what the shared selection means depends on the
+\* object it is applied to - in one request (a mixed list) and from one call to the next on one parsed executable (C08, C11)
+AbsOpsFrag == Frg("P", "Named", <<FS("", "peer", <<TN, Inl("A", <<F("", "n")>>), Inl("B", <<F("", "flag")>>)>>), F("", "name")>>)
+FamAbsOps ==
+  { Case("absops", [ops |-> <<Op("A", "query", <<>>, <<FS("", "a", <<Spr("P")>>)>>),
+                              Op("B", "query", <<>>, <<FS("", "one", <<Spr("P")>>)>>),
+                              Op("C", "query", <<>>, <<FS("", "named", <<Spr("P")>>), FS("", "any", <<Inl("Named", <<Spr("P")>>)>>)>>)>>,
+                     frags |-> <<AbsOpsFrag>>], n, NoVars, {}) : n \in {"A", "B", "C"} }
+
 \* undefined field under a union member / interface member reached through a condition-less fragment (C10, reflection only)
 FamDefectsAbs ==
   { Plain("defectabs", s) : s \in {
@@ -320,5 +330,5 @@ Families ==
   [ flat |-> FamFlat, nest1 |-> FamNest1, nest2 |-> FamNest2, nest3 |-> FamNest3,
     inline1 |-> FamInline1, inline2 |-> FamInline2, spread |-> FamSpread, dups |-> FamDups,
     args |-> FamArgs, ops |-> FamOps, dirs |-> FamDirs, dirvars |-> FamDirVars, defect |-> FamDefects,
-    inputs |-> FamInputs, mixed |-> FamMixed, abstract |-> FamAbstract, defectabs |-> FamDefectsAbs, faultnth |-> FamFaultsNth, fault0 |-> FamFaults0, fault1 |-> FamFaults1, fault2 |-> FamFaults2 ]
+    inputs |-> FamInputs, mixed |-> FamMixed, abstract |-> FamAbstract, absops |-> FamAbsOps, defectabs |-> FamDefectsAbs, faultnth |-> FamFaultsNth, fault0 |-> FamFaults0, fault1 |-> FamFaults1, fault2 |-> FamFaults2 ]
 =============================================================================
